@@ -8,9 +8,13 @@
    An iteration during which blocks were committed (inside its DA calls) is one item CTickP of
    Model.SubmitterConc: every DA answer with the blocks committed while that call was in flight; for a loop item the
    number of DA answers the loop left unasked is compared too.
+   One call of publishBlockInternal under a pending limit is one item WPublish of Model.SubmitterWaiting: the limit,
+   the kind of block it would commit and the data iterations the harness ran INSIDE numWaitingData (after it had
+   read the pending range); compared: whether numWaitingData ran / the call was refused, the DA calls of those
+   iterations, both watermarks.
    [mismatches] lists the cases on which the model disagrees. *)
 From Coq Require Import NArith List Bool.
-From Verif Require Import Model.Submitter Model.SubmitterConc.
+From Verif Require Import Model.Submitter Model.SubmitterConc Model.SubmitterWaiting.
 Import ListNotations.
 Open Scope N_scope.
 
@@ -37,13 +41,15 @@ Record iout := { io_res : option N;      (* 0 idle 1 nothing-to-submit 2 getPend
                  io_calls : list ocall;  (* DA calls of the item's kind made during the item, oldest first *)
                  io_h : option mark;     (* header watermark (in memory, persisted) after the item *)
                  io_d : option mark;
-                 io_left : option N }.   (* loop items: DA answers of the script the loop did not ask for *)
+                 io_left : option N;     (* loop items: DA answers of the script the loop did not ask for *)
+                 io_lim : option N }.    (* WPublish items: 2 * (numWaitingData ran) + (the call was refused); 4 + (refused)
+                                            when the harness cannot tell whether numWaitingData ran *)
 
 (* heights in run-length form: [(a, n); ...] = a, a+1, .., a+n-1, ...  (a call after a long DA outage or an idle
    stretch carries hundreds of consecutive heights; the case files write them as runs) *)
 Definition runs (l : list (N * N)) : list N := flat_map (fun p => seqN (fst p) (N.to_nat (snd p))) l.
 
-Record ocase := { oc_cfg : cfg; oc_init : N; oc_hist : list citem; oc_outs : list iout;
+Record ocase := { oc_cfg : cfg; oc_init : N; oc_hist : list witem; oc_outs : list iout;
                   oc_hacc : list N; oc_dacc : list N;     (* accepted heights, oldest first *)
                   oc_height : N }.
 
@@ -121,9 +127,37 @@ Fixpoint check_citems (c : cfg) (s : state) (h : list citem) (os : list iout) : 
   | _, _ => (s, [9])
   end.
 
+(* one call of publishBlockInternal under a pending limit (Model.SubmitterWaiting): 10 = whether numWaitingData ran /
+   whether the call was refused; 3 the DA calls of the data iterations that ran inside the check; 4 watermarks *)
+Definition lim_code (called refused : bool) : N := (if called then 2 else 0) + (if refused then 1 else 0).
+Definition lim_ok (obs : option N) (called refused : bool) : bool :=
+  match obs with
+  | None => true
+  | Some x => if x <? 4 then x =? lim_code called refused else x - 4 =? lim_code false refused
+  end.
+
+Definition check_witem (c : cfg) (s : state) (wi : witem) (o : iout) : state * list N :=
+  match wi with
+  | WC ci => check_citem c s ci o
+  | WPublish L b qs =>
+      let '(called, refused, s1) := limit_check c L qs s in
+      let s' := if refused then s1 else commit b s1 in
+      (s', (if lim_ok (io_lim o) called refused then [] else [10]) ++
+           (if list_eqb ocall_eqb (new_calls KData s s') (io_calls o) then [] else [3]) ++
+           (if opt_ok mark_eqb (io_h o) (side_mark (s_h s')) && opt_ok mark_eqb (io_d o) (side_mark (s_d s')) then [] else [4]))
+  end.
+
+Fixpoint check_witems (c : cfg) (s : state) (h : list witem) (os : list iout) : state * list N :=
+  match h, os with
+  | i :: h', o :: os' => let '(s', e) := check_witem c s i o in
+                         let '(s'', e') := check_witems c s' h' os' in (s'', e ++ e')
+  | [], [] => (s, [])
+  | _, _ => (s, [9])
+  end.
+
 (* 5 accepted header heights, 6 accepted data heights, 7 chain height *)
 Definition check_case (c : ocase) : list N :=
-  let '(s, e) := check_citems (oc_cfg c) (boot (oc_init c)) (oc_hist c) (oc_outs c) in
+  let '(s, e) := check_witems (oc_cfg c) (boot (oc_init c)) (oc_hist c) (oc_outs c) in
   dedup e ++
   (if list_eqb N.eqb (rev (acc (s_h s))) (oc_hacc c) then [] else [5]) ++
   (if list_eqb N.eqb (rev (acc (s_d s))) (oc_dacc c) then [] else [6]) ++
